@@ -41,7 +41,7 @@ META = dict(
 )
 
 TIERS = {
-    "quick": dict(check="ReaderBuf.quick.cfg", gen="ReaderBufGen.quick.cfg", trace_every=8, shards=4, stack="ReaderStack.quick.cfg"),
+    "quick": dict(check="ReaderBuf.quick.cfg", gen="ReaderBufGen.quick.cfg", trace_every=16, shards=4, stack="ReaderStack.quick.cfg"),
     "thorough": dict(check="ReaderBuf.thorough.cfg", gen="ReaderBufGen.thorough.cfg", trace_every=2, shards=8, stack="ReaderStack.thorough.cfg"),
 }
 
